@@ -36,6 +36,11 @@ func propC04(c *Ctx, r *Report) {
 	ruleLoopVarAlias(c, r, "C04-R12/loopvar-alias", c.RSync)
 	r.rule("C04-R13/payout-entry-per-request", 1, "every deferred PEG request has an entry in the payout map (its refund is computed from it)")
 	rulePayoutEntryPerRequest(c, r, "C04-R13/payout-entry-per-request")
+	// a debited PEG request is either settled or was rejected before the debit (shared with C03-R9)
+	rulePegRequestComplete(c, r, "C04-R14/peg-request-complete")
+	// a one-time issuance is decided from the height, not from what this process remembers (shared engine)
+	ruleNoCarriedReads(c, newSharedAnalysis(c), r, "C04-R15/no-carried-state", c.RSync, carriedAllowedAverages, "block processing")
+	ruleBurnTransferEra(c, r, "C04-R16/burn-transfer-era")
 
 	r.rule("C04-R1/balance-writers", 2, "only the two mutators write pn_addresses")
 	ruleTableWriters(c, cat, r, "C04-R1/balance-writers", "pn_addresses", []writerSpec{
